@@ -63,6 +63,12 @@ def run_real_robust(ops, rep=None):
     reported as it is (and judged: the model must then run out of fuel too)."""
     import sys
     real, err = run_real(ops)
+    if err is not None and err.startswith('timeout'):
+        # wall-clock budgets depend on what else the machine is doing: before a history counts as "does not
+        # finish" it gets a second run with six times the budget
+        real, err = run_real(ops, budget_s=60.0)
+        if rep is not None:
+            rep.count('slow-history-rerun-with-60s')
     if _hit_limit(real, err):
         old = sys.getrecursionlimit()
         sys.setrecursionlimit(max(old, 8000))
